@@ -411,7 +411,10 @@ func (e *explorerB) dfs(st stateB, depth int) {
 		if _, ok := e.abstract[nx.code]; !ok {
 			e.abstract[nx.code] = struct{}{}
 			e.r.Outcome("B", fmt.Sprint(c), fmt.Sprint(nx.code, nx.clock))
-			e.r.Sample(map[string]any{"part": "B", "cfg": c, "ops": fmt.Sprint(e.path), "spam_verdicts": string(e.verd), "state": fmt.Sprint(nx.code)})
+			if depth >= 5 && (nx.banned(c, 0) || nx.banned(c, 1)) {
+				sample(e.r, "B", map[string]any{"part": "B", "cfg": c, "ops": fmt.Sprint(e.path), "spam_verdicts_of_arrivals": string(e.verd),
+					"state": fmt.Sprintf("source1{present counter timestamp threshold}=%v source2=%v", nx.code[0], nx.code[1])})
+			}
 		}
 		e.dfs(nx, depth+1)
 		if !op.M {
@@ -447,7 +450,7 @@ func (e *explorerB) crossCheck(st stateB) {
 
 func depthB(thorough bool) int {
 	if thorough {
-		return 11
+		return 13
 	}
 	return 8
 }
